@@ -1,6 +1,7 @@
 import OapiVerif.Model.Security
 import OapiVerif.Props.C02
 import OapiVerif.Props.C19
+import OapiVerif.Proofs.QueryWire
 /-!
 C18 — Security requirements are carried faithfully on both sides.
 
@@ -294,6 +295,57 @@ theorem C18_apikey_cookie (name key : Str) (r : Request) (hk : cookieSafe key)
   · split
     · split <;> exact ⟨rfl, rfl, rfl, rfl, fun k' hne => by simp [hSet, hGet_upd_other _ _ _ _ hne]⟩
     · exact ⟨rfl, rfl, rfl, rfl, fun k' hne => by simp [hSet, hGet_upd_other _ _ _ _ hne]⟩
+
+section QueryWire
+open OapiVerif.Codec
+
+theorem qLookup_mem (q : Query) (k : List Nat) (vs : List (List Nat)) (h : qLookup q k = some vs) : (k, vs) ∈ q := by
+  unfold qLookup at h
+  simp only [Option.map_eq_some_iff] at h
+  obtain ⟨e, hf, rfl⟩ := h
+  have h1 := List.find?_some hf
+  have h2 := List.mem_of_find?_eq_some hf
+  simp only [decide_eq_true_eq] at h1
+  subst h1
+  exact h2
+
+theorem qLookup_none (q : Query) (k : List Nat) (h : k ∉ q.map (·.1)) : qLookup q k = none := by
+  unfold qLookup
+  simp only [Option.map_eq_none_iff, List.find?_eq_none, decide_eq_true_eq]
+  intro e he hk
+  exact h (List.mem_map.mpr ⟨e, he, hk⟩)
+
+/-- The query editor at wire level: what `url.ParseQuery` reads from `Values.Encode` of a query has, under every
+name, exactly the values of that name in their order — nothing lost to escaping, whatever bytes names and values
+contain. -/
+theorem C18_query_wire_roundtrip (q : Query) (hk : (q.map (·.1)).Nodup)
+    (hb : ∀ e ∈ q, Bytes e.1 ∧ ∀ v ∈ e.2, Bytes v) :
+    ∃ q', parseQuery (encodeQuery q) = .ok q' ∧ ∀ k, (qLookup q' k).getD [] = (qLookup q k).getD [] := by
+  have hbytes : ∀ kv ∈ pairsOf q, Bytes kv.1 ∧ Bytes kv.2 := by
+    intro kv hkv
+    simp only [pairsOf, List.mem_flatMap, List.mem_mergeSort, List.mem_map] at hkv
+    obtain ⟨k, ⟨e, he, rfl⟩, v, hv, rfl⟩ := hkv
+    refine ⟨(hb e he).1, ?_⟩
+    cases hl : qLookup q e.1 with
+    | none => simp [hl] at hv
+    | some vs =>
+      simp only [hl, Option.getD_some] at hv
+      have := qLookup_mem q e.1 vs hl
+      exact (hb _ this).2 v hv
+  refine ⟨_, parse_encode q hbytes, ?_⟩
+  intro k
+  rw [getD_foldl_qAdd]
+  have hnd : ((q.map (·.1)).mergeSort Walks.kle).Nodup := (List.mergeSort_perm _ _).nodup_iff.mpr hk
+  unfold pairsOf
+  rw [filter_flatMap_key _ (fun a => (qLookup q a).getD []) hnd k]
+  by_cases hm : k ∈ (q.map (·.1)).mergeSort Walks.kle
+  · simp [hm, qLookup]
+  · have : k ∉ q.map (·.1) := fun h => hm (List.mem_mergeSort.mpr h)
+    have hn := qLookup_none q k this
+    simp only [hm, if_false, List.append_nil]
+    rw [hn]; simp [qLookup]
+
+end QueryWire
 
 example : describe [[(w "a", [w "r"])], [(w "c", [w "x", w "y"])]] = [⟨w "a", [w "r"]⟩, ⟨w "c", [w "x", w "y"]⟩] := by
   simp [describe, describeReq, sortedEmit, sortedKeys, lookup]
